@@ -38,6 +38,9 @@ class ChanProp(Prop):
     def setup(self, w):
         cc.declare(w)
 
+    def static_checks(self, w):
+        return per_instance_state(("Channel", "ChannelFactory", "BaseGateway", "WorkerGateway", "ChannelFile", "ChannelFileRead", "ChannelFileWrite", "Reply", "WorkerPool"))
+
     def replay(self, ob):
         return run_scen(self.scenarios)
 
@@ -60,6 +63,32 @@ class ChanProp(Prop):
                     fails.append({"scenario": res["scenario"], "why": rest})
         return [{"name": "native-channel-scenarios", "bound": f"scenarios {self.scenarios} on one real popen gateway each (real threads, real SIGKILL)", "evaluations": r.get("n", 0),
                  "failures": len(fails), "detail": fails or None}]
+
+
+def per_instance_state(classes, module=GB, tables=("_types", "num2func", "_dispatch")):
+    """Static obligations behind the heap model: the contracts treat every attribute of these classes as a cell of the OBJECT.  A mutable value bound in the class body
+    (a list, dict or set display / constructor call) is one object shared by all instances, unless every instance rebinds it in __init__ - which is what is checked."""
+    import ast
+
+    from pyvc import extract
+
+    mod = extract.load(module)
+    out = []
+    for cls in [n for n in mod.tree.body if isinstance(n, ast.ClassDef) and n.name in classes]:
+        init = next((n for n in cls.body if isinstance(n, ast.FunctionDef) and n.name == "__init__"), None)
+        rebound = {t.attr for n in (ast.walk(init) if init else []) if isinstance(n, (ast.Assign, ast.AnnAssign))
+                   for t in (n.targets if isinstance(n, ast.Assign) else [n.target]) if isinstance(t, ast.Attribute) and isinstance(t.value, ast.Name) and t.value.id == "self"}
+        for n in cls.body:
+            tgt = n.target if isinstance(n, ast.AnnAssign) else (n.targets[0] if isinstance(n, ast.Assign) and len(n.targets) == 1 else None)
+            val = getattr(n, "value", None)
+            if not isinstance(tgt, ast.Name) or val is None or tgt.id in tables:
+                continue
+            mutable = isinstance(val, (ast.List, ast.Dict, ast.Set, ast.ListComp, ast.DictComp, ast.SetComp)) or (
+                isinstance(val, ast.Call) and isinstance(val.func, ast.Name) and val.func.id in ("list", "dict", "set", "bytearray", "deque", "defaultdict"))
+            if mutable:
+                out.append((f"static/{cls.name}.{tgt.id}/class-level-mutable-is-rebound-per-instance", tgt.id in rebound, f"{cls.name}.{tgt.id} = {ast.unparse(val)[:40]} is shared by all instances"))
+    out.append((f"static/per-instance-state/classes-found", len({n.name for n in mod.tree.body if isinstance(n, ast.ClassDef)} & set(classes)) >= 6, "the classes whose heap model this protects exist"))
+    return out
 
 
 GBR = f"{GB}:BaseGateway._thread_receiver"
@@ -143,7 +172,7 @@ SPECS = {
         canary=(F + "_local_receive", "item-queued-at-the-head", canary_c02)),
     "C03": dict(
         title="close: one close frame after the data (none if the peer closed first), ENDMARKER behind pending items, both tables forget the id; receive re-queues ENDMARKER and raises EOFError again and again; closing side state; second close is a no-op",
-        targets=[C + "close", C + "receive", C + "waitclose", C + "isclosed", C + "send", C + "_getremoteerror", F + "_local_close", F + "_no_longer_opened", C + "__del__",
+        targets=[C + "close", C + "receive", C + "waitclose", C + "isclosed", C + "send", C + "_getremoteerror", F + "_local_close", F + "_no_longer_opened", C + "__del__", C + "__init__",
                  EXECTASK,     # the automatic close at the end of a remote_exec body: exactly one close call on every exit
                  DISPATCH],    # a close frame (with or without error) is a full close, only LAST_MESSAGE is a half close
         scenarios=["c03_close"], extra_worlds="wk,mr",
@@ -164,7 +193,7 @@ SPECS = {
         canary=(F + "_finished_receiving", "factory-not-marked-finished", canary_c04)),
     "C07": dict(
         title="a raising callback: the item was passed once, one CHANNEL_CLOSE_ERROR frame goes to the peer, a RemoteError (never another type) is recorded on the live channel, the id is forgotten, and no Exception escapes the handler (the receiver loop goes on); errors are handed out FIFO, each once",
-        targets=[F + "_local_receive", F + "_local_close", F + "_no_longer_opened", C + "_getremoteerror", C + "receive", C + "waitclose", C + "close", MRC, GBR,
+        targets=[F + "_local_receive", F + "_local_close", F + "_no_longer_opened", C + "_getremoteerror", C + "receive", C + "waitclose", C + "close", C + "__init__", MRC, GBR,
                  EXECTASK,     # a raising remote body: the channel is closed with the formatted error text (any exception but EOFError/KeyboardInterrupt)
                  DISPATCH],    # the error text of a CHANNEL_CLOSE_ERROR frame is decoded with the class defaults (never the gateway's pair) and handed to _local_close
         scenarios=["c07_errors"], extra_worlds="wk,mr",
